@@ -46,7 +46,7 @@ def unitary(gate, decomposition="qsd", iso=0, apply_a2=True):
     if not is_unitary_matrix(matrix):
         raise ValueError("The matrix must be unitary.")
 
-    circuit = build_unitary(gate, decomposition, iso)
+    circuit = build_unitary(matrix, decomposition, iso)
     if decomposition == "qsd" and apply_a2:
         try:
             return _apply_a2(circuit)
